@@ -911,9 +911,8 @@ def CustomObservable(type='x-custom-observable', properties=None, id_contrib_pro
             extension = extension_name.split('--')[1]
             extension = extension.replace('-', '')
             NameExtension.__name__ = 'ExtensionDefinition' + extension
-            cls.with_extension = extension_name
         try:
-            return _custom_observable_builder(cls, type, _properties, '2.1', _Observable, id_contrib_props)
+            new_cls = _custom_observable_builder(cls, type, _properties, '2.1', _Observable, id_contrib_props)
         except Exception:
             if extension_name:
                 # the type was refused: don't leave its extension behind
@@ -921,4 +920,8 @@ def CustomObservable(type='x-custom-observable', properties=None, id_contrib_pro
                     extension_name, None,
                 )
             raise
+        if extension_name:
+            # (on the generated class: the decorated class stays as it was)
+            new_cls.with_extension = extension_name
+        return new_cls
     return wrapper
